@@ -203,8 +203,15 @@ fn variants(prop: &str, g: &Generated, base_rep: &RunReport, cap: usize) -> Vec<
             }
         }
         "C05" => {
-            for k in spread(fc.mem_calls, cap.max(1)) {
+            for k in spread(fc.mem_calls, (cap / 2).max(1)) {
                 add(F_MEM_FAIL, k as u32, 0);
+            }
+            // a panic in user code must not make the vector read storage it never wrote
+            for k in spread(fc.clones, 2) {
+                add(F_CLONE_PANIC, k as u32, 0);
+            }
+            for k in spread(fc.drops, 2) {
+                add(F_DROP_PANIC, k as u32, 0);
             }
         }
         "C07" => {
